@@ -79,6 +79,7 @@ var libSigs = map[string]libSig{
 	"strings.Split":     {[]string{"Str", "Str"}, "L_Str"},
 	"strings.SplitN":    {[]string{"Str", "Str", "Int"}, "L_Str"},
 	"strings.Fields":    {[]string{"Str"}, "L_Str"},
+	"strings.Count":     {[]string{"Str", "Str"}, "Int"},
 	"strings.ReplaceAll": {[]string{"Str", "Str", "Str"}, "Str"},
 	"strings.Join":      {[]string{"L_Str", "Str"}, "Str"},
 	"strings.ToLower":   {[]string{"Str"}, "Str"},
